@@ -32,6 +32,8 @@ pub fn blocks(thorough: bool) -> Vec<Block> {
         b.push(Block::new(u_prefix_suffix(), class_cfgs(&[0]), "64 class subsets"));
         b.push(Block::new(Universe::new("U_pairs{a,1,sp}^<=4", &["a", "1", " "], 4, 2, false), vec![Cfg::new(D | R | G), Cfg::new(S | R | G), Cfg::new(W | R | G | X), Cfg::new(D | R), Cfg::new(ND | R | G | I)], "d+r+g, s+r+g, w+r+g+x, d+r, D+r+g+i (optional runs of class tokens)"));
         b.push(Block::new(Universe::new("U_i{U+0130,a,-,1}", &["\u{130}", "a", "-", "1"], 2, 2, false), class_cfgs(&[I, I | R]), "64 class subsets x {i, i+r} (test cases that keep their upper-case form)"));
+        b.push(Block::new(u_kind_pairs(1, 2, false), class_cfgs(&[0]), "64 class subsets"));
+        b.push(Block::new(u_runs(), vec![Cfg::new(D), Cfg::new(W), Cfg::new(S), Cfg::new(ND), Cfg::new(NW), Cfg::new(NS), Cfg::new(D | NW | S)], "d, w, s, D, W, S, d+W+s"));
         b.push(Block::new(u_corpus("U_large_cls", verif_seed() + 5, 500, &["a", "1", "-", "\u{663}"], (8, 14), (3, 6)), vec![Cfg::new(D), Cfg::new(W), Cfg::new(D | NW), Cfg::new(D | W | R)], "d, w, d+W, d+w+r (corpus of large sets)"));
     } else {
         b.push(Block::new(u_corpus("U_large_cls", verif_seed() + 5, 20_000, &["a", "1", "-", "\u{663}"], (8, 14), (3, 6)), class_cfgs(&[0]), "64 class subsets (corpus)"));
@@ -44,6 +46,9 @@ pub fn blocks(thorough: bool) -> Vec<Block> {
         b.push(Block::new(Universe::new("U_adv(A_cls+meta)", &mix, 2, 2, true), class_cfgs(&[0, X, G, E, I | X, R | X]), "64 class subsets x {{}, x, g, e, i+x, r+x}"));
         b.push(Block::new(Universe::new("U_a1{a,1}", &["a", "1"], 3, 0, false), class_cfgs(&[0, R]), "64 class subsets x {{}, r}"));
         b.push(Block::new(Universe::new("U_ab3{a,b}", &["a", "b"], 3, 0, false), class_cfgs(&[0]), "64 class subsets"));
+        b.push(Block::new(u_kind_pairs(2, 1, false), class_cfgs(&[0, R]), "64 class subsets x {{}, r}"));
+        b.push(Block::new(u_kind_pairs(2, 2, false), vec![Cfg::new(D), Cfg::new(W), Cfg::new(S), Cfg::new(ND), Cfg::new(NW), Cfg::new(NS), Cfg::new(D | NW | S), Cfg::new(S | ND)], "d, w, s, D, W, S, d+W+s, s+D"));
+        b.push(Block::new(u_runs(), class_cfgs(&[0, I]), "64 class subsets x {{}, i}"));
     }
     b
 }
